@@ -1,6 +1,7 @@
 SPECIFICATION Spec
 CONSTANTS
   MaxLen = 4
+  Emit = FALSE
   Family = "valued"
 INVARIANTS AllInv
 CHECK_DEADLOCK FALSE
